@@ -210,6 +210,16 @@ theorem inverse_sound {N : ℕ} {M : Matrix (Fin N) (Fin N) ℚ} {W : Mat}
       simp [e]
   exact ⟨key, mul_eq_one_comm.mp key⟩
 
+/-- the diagonal test in front of the final scaling (fix f4da51d) is dead in exact arithmetic: a
+    finished elimination leaves a non-zero diagonal -/
+theorem diagZero_dead {N : ℕ} {W : Mat} (hD : ColsDone N N W) : diagZero N W = false := by
+  unfold diagZero
+  rw [Bool.eq_false_iff]
+  intro h
+  simp only [List.any_eq_true, List.mem_range, decide_eq_true_eq] at h
+  obtain ⟨i, hi, h0⟩ := h
+  exact (hD i hi).1 h0
+
 theorem inverse_nonsquare (A : Mat) (h : A.rows ≠ A.cols) : inverse A = .error .diag := by
   simp [inverse, h]
 
@@ -236,7 +246,9 @@ theorem inverse_err_or_ok (A : Mat) : inverse A = .error .diag ∨ ∃ X, invers
   unfold inverse
   split; · simp
   split; · simp
-  split <;> simp
+  split
+  · simp
+  · split <;> simp
 
 /-- **correctness of every returned inverse**: whatever `Inverse` returns is the two-sided inverse,
     for every size and whatever the position of zero or small entries -/
@@ -250,6 +262,7 @@ theorem inverse_correct {A X : Mat} (h : inverse A = .ok X) :
   split at h
   · cases h
   · rename_i W hW
+    split at h; · cases h
     cases h
     obtain ⟨-, hI, hD⟩ := gaussJordan_invariant hW
     obtain ⟨h1, h2⟩ := inverse_sound hI hD
@@ -318,7 +331,8 @@ theorem inverse_total : inverse_total_FULL := by
   rw [← List.range_eq_range'] at hW
   refine ⟨normalise A.rows W, ?_⟩
   have hsq : ¬ A.rows ≠ A.cols := by omega
-  simp [inverse, hsq, hinv, hW]
+  have hdead : diagZero A.rows W = false := diagZero_dead (gaussJordan_invariant hW).2.2
+  simp [inverse, hsq, hinv, hW, hdead]
 
 
 /-- every invertible matrix of size `n ≥ 1` is inverted, and the result is its two-sided inverse -/
